@@ -435,6 +435,35 @@ def range_index(W, t):
     return {"container": cont, "site": site}
 
 
+def value_holders(fn, call_bb):
+    """Locals that (may) hold the value returned by the call in block call_bb, or a part of it: the destination, the results of
+    unwrap/expect/`?` applied to it, and locals it is moved into (also out of an enum payload)."""
+    t = fn.blocks[call_bb].term
+    holders = {t["dst"]["l"]} if t.get("dst") and not t["dst"].get("p") else set()
+    changed = True
+    while changed:
+        changed = False
+        for bl in fn.blocks:
+            tt = bl.term
+            if tt["k"] == "call" and callee_name(tt["fn"].get("path", "")) in ("unwrap", "expect", "branch", "unwrap_or_else", "into_inner") and tt["args"]:
+                a0 = tt["args"][0].get("mv") or tt["args"][0].get("cp")
+                if a0 and a0["l"] in holders and tt.get("dst") and not tt["dst"].get("p") and tt["dst"]["l"] not in holders:
+                    holders.add(tt["dst"]["l"])
+                    changed = True
+            for st in bl.stmts:
+                if st["k"] == "assign" and st["rv"]["k"] == "use" and not st["dst"].get("p"):
+                    src = st["rv"]["op"].get("mv")
+                    if src and src["l"] in holders and st["dst"]["l"] not in holders:
+                        holders.add(st["dst"]["l"])
+                        changed = True
+    return holders
+
+
+def normal_drops(fn, holders):
+    """Blocks (not on unwind paths) whose terminator drops one of the locals as a whole."""
+    return [bl.idx for bl in fn.blocks if bl.term["k"] == "drop" and not bl.cleanup and not bl.term["place"].get("p") and bl.term["place"]["l"] in holders]
+
+
 def uncast(t):
     while isinstance(t, tuple) and t and t[0] == "cast":
         t = t[3]
